@@ -164,7 +164,7 @@ Definition spec_call (w : world) (c : call) : option (list (outcome res * list (
            | None => Some ((Exc NoSuchProcess, []) :: if valid_args p s then [] else [(Exc ValueError, [])])
            end
     else None
-  | Ppid _ | CreateTime _ | BootTime | ProcIter => None
+  | Ppid _ | CreateTime _ | BootTime | ProcIter | NewPopen _ | OneshotEnter _ | OneshotExit _ | AsDict _ => None
   end.
 
 (* no attempt at all may name PID 0 or a negative PID in os.kill *)
